@@ -80,7 +80,7 @@ struct block_matrix_adapter {
         col_type cur_col;
         val_type cur_val;
 
-        row_iterator(const Matrix &A, col_type row) : done(true)
+        row_iterator(const Matrix &A, col_type row) : done(true), cur_col(0)
         {
             base = reinterpret_cast<Base*>(buf.data());
             for(int i = 0; i < BlockSize; ++i) {
@@ -108,6 +108,29 @@ struct block_matrix_adapter {
                     cur_val(i, base[i].col() % BlockSize) = base[i].value();
                 }
             }
+        }
+
+        // base points into this object's own buffer: a copy needs its own
+        // sub-iterators (adapters wrapping this one store it by value).
+        row_iterator(const row_iterator &other)
+            : base(reinterpret_cast<Base*>(buf.data())),
+              done(other.done), cur_col(other.cur_col), cur_val(other.cur_val)
+        {
+            for(int i = 0; i < BlockSize; ++i)
+                new (base + i) Base(other.base[i]);
+        }
+
+        row_iterator& operator=(const row_iterator &other) {
+            if (this != &other) {
+                for(int i = 0; i < BlockSize; ++i) {
+                    base[i].~Base();
+                    new (base + i) Base(other.base[i]);
+                }
+                done    = other.done;
+                cur_col = other.cur_col;
+                cur_val = other.cur_val;
+            }
+            return *this;
         }
 
         ~row_iterator() {
